@@ -199,6 +199,11 @@ def tiered_ranges(numtype, intsize, signed, start, end, shift_step,
         if endexcl:
             end -= 1
 
+    if start > end:
+        # Empty interval, e.g. an exclusive bound at the edge of the domain
+        # pushed start past the maximum or end below zero
+        return ()
+
     if not shift_step:
         return ((start, end, 0),)
 
